@@ -330,6 +330,9 @@ def slice_assumptions(assumptions, goal):
     goal.  Dropping assumptions is sound for proving (the query only gets weaker)."""
     cache = {}
     rel = set(_symbols(goal, cache))
+    if not rel:
+        # a constant goal (infeasibility of a path: goal `False`) has no cone of influence: every assumption matters
+        return list(assumptions)
     rest = [(a, _symbols(a, cache)) for a in assumptions]
     keep = []
     changed = True
